@@ -42,6 +42,8 @@ type Cfg struct {
 	// Shared: (IDTransformer only) the same Transformer value also serves a second handler on
 	// another pattern with its own store, which publishes first.
 	Shared bool `json:"shared,omitempty"`
+	// Builder: the handler value is put together with WithStore/WithTransformer/WithDefault.
+	Builder bool `json:"builder,omitempty"`
 }
 
 // Mut is one mutation.
@@ -250,6 +252,10 @@ func newFixture(cfg Cfg) (*fixture, error) {
 	}
 	if cfg.Default != "" {
 		h.Default = json.RawMessage(cfg.Default)
+	}
+	if cfg.Builder {
+		// the same handler put together with the With... methods
+		h = store.Handler{}.WithStore(h.Store).WithTransformer(h.Transformer).WithDefault(h.Default)
 	}
 	s := res.NewService("svc")
 	s.SetWorkerCount(1)
@@ -621,6 +627,7 @@ func genCfg(storeKind string) *rapid.Generator[Cfg] {
 		c.Type = rapid.SampledFrom([]string{"model", "collection"}).Draw(t, "type")
 		c.Trans = rapid.SampledFrom([]string{"none", "id", "custom"}).Draw(t, "trans")
 		c.Shared = c.Trans == "id" && rapid.IntRange(0, 2).Draw(t, "shared") == 0
+		c.Builder = rapid.Bool().Draw(t, "builder")
 		if storeKind == "badger" && c.Type == "collection" && c.Trans == "none" {
 			c.Trans = "id"
 		}
